@@ -56,7 +56,7 @@ F("FUNC-negative-int-as-float", ALLP,
   slot=[ANY, "own", ANY, ANY, "intNeg"])
 F("DOC-empty-string-default", DOCP,
   "an empty-string default renders as `Defaults to ` with nothing after it; prose and default are mangled on the way back",
-  ["ProseKept.base", "ProseKept.stop", "ProseKept.ann", "DefaultKept"], when={"k": DOCF + ["class"], "dd": True},
+  ["ProseKept.base", "ProseKept.stop", "ProseKept.ann", "DefaultKept", "ConfigTransparent"], when={"k": DOCF + ["class"], "dd": True},
   slot=[ANY, ANY, ANY, ANY, "strEmpty"])
 F("REST-return-only-default", DOCP,
   "a return entry that has only a default expression (no type, no prose) is not rendered in a ReST docstring",
@@ -87,7 +87,7 @@ F("DOC-scalar-return-with-code-default", DOCP,
 F("REST-untyped-str-or-code-default", DOCP,
   "ReST: an untyped parameter whose default is a string or code expression: the quoted default text is passed to float()/"
   "literal_eval and raises ValueError",
-  ["NeverRaises"], obs=["ValueError"], when={"k": ["rest"] + FUN, "dd": True, "step": "parse"},
+  ["NeverRaises"], obs=["ValueError"], when={"k": DOCF, "dd": True, "step": "parse"},
   slot=["none", "own", ANY, ANY, ["str", "code"]])
 F("GOOGLE-return-only", DOCP,
   "google: a docstring with a Returns section but no Args section is scanned wrongly: return type and prose are mangled",
@@ -211,3 +211,50 @@ F("NUMPYDOC-return-without-type-drift", ALLP,
   "re-read as parameters, then as summary)",
   ["TextStable", "IrStable", "SummaryKept", "NoExtraNames", "NamePresent", "RetKept.present"], when={"k": "numpydoc", "hop": [2, 3]},
   init_ret=[True, "none", ANY, ANY, ANY, ANY])
+F("FOLLOW-UP-of-earlier-failure", ALLP,
+  "later hop of a chain whose earlier hop already failed a clause (reported there): the intermediate description is not the one "
+  "the chain was meant to carry, so further deviations are consequences",
+  ANYCL + ["ConfigTransparent"], when={"hop": [2, 3]}, after_earlier_failure=True)
+
+# ------------------------------------------------------------------------------------------------ chains (C05)
+F("CHAIN-filled-empty-string-mangles-prose", ALLP,
+  "chain: class/argparse fill a missing default of a str / untyped parameter with '' and the next docstring rendering "
+  "(`Defaults to ` + nothing) mangles the prose",
+  ["Chain.Prose", "Chain.Def", "Chain.Typ"], when={"k": ["class", "argparse"]}, slot=[["str", "none", "OptStr", "LitStr", "ListStr", "UnionIntStr", "TupleIntStr", "Dotted"], "own", ANY, ANY, "absent"])
+F("CHAIN-filled-return-default-breaks-argparse", ALLP,
+  "chain: after a class hop gave the return entry a zero default, emit.argparse_function raises TypeError (it ast.parse()s the "
+  "non-string default)",
+  ["EmitNeverRaises"], obs=["TypeError"], when={"k": "argparse", "hop": [2, 3]}, ret=[True, ANY, ANY, ANY, ANY, ["int0", "none", "other"]])
+F("CHAIN-untyped-through-class", ALLP,
+  "chain: an untyped parameter that passes through a class hop comes back typed `str` (its None / missing default became '')",
+  ["Chain.Typ", "Chain.Def"], when={"k": "class"}, slot=["none", ANY, ANY, ANY, ANY])
+F("CHAIN-optional-through-argparse", ALLP,
+  "chain: Optional[int] / Optional[bool] with default None passes argparse as type str (Optional[str])",
+  ["Chain.Typ"], when={"k": "argparse"}, slot=[["OptInt", "OptBool", "int"], ANY, ANY, ANY, ["none", "absent", "intNeg"]])
+F("CHAIN-dotted-code-no-prose-dropped", ALLP,
+  "chain: a prose-less parameter with a dotted type and code default is lost after a docstring hop following a class hop",
+  ["Chain.NamePresent"], slot=["Dotted", "none", ANY, ANY, "code"])
+F("CHAIN-default-sentence-diff", ALLP,
+  "chain: the `Defaults to` sentence left in the prose by one hop announces a value the next hop has changed (None vs '' etc.)",
+  ["Chain.Prose"], obs=[["own", "diff"]], slot=[ANY, "own", ANY, ANY, ANY])
+F("CHAIN-argparse-return-default-other", ALLP,
+  "chain: a return entry without default passing class then argparse acquires a quoted zero/None default",
+  ["Chain.Ret"], when={"k": "argparse"}, ret=[True, ANY, ANY, ANY, ANY, "absent"])
+F("CHAIN-numpydoc-untyped-return", ALLP,
+  "chain: numpydoc hop with an untyped return entry (see NUMPYDOC-return-without-type)",
+  ["Chain.NoExtraNames", "Chain.Summary", "Chain.Ret"], when={"k": "numpydoc"}, ret=[True, "none", ANY, ANY, ANY, ANY])
+
+# ------------------------------------------------------------------------------------------------ wrapping (C18)
+NARROW = [str(x) for x in range(40, 100, 8)] + ["72"]
+F("NUMPYDOC-wrapped-continuation-not-indented", ALLP,
+  "numpydoc with word wrap at a narrow DOCTRANS_LINE_LENGTH: continuation lines of wrapped prose lose their indentation, so the "
+  "scanner reads them as new entries (defaults, prose, names and the return entry are mis-attributed)",
+  ["ConfigTransparent", "RetKept.def", "RetKept.stop", "RetKept.base", "RetKept.ann", "RetKept.present", "RetKept.typ", "NoExtraNames",
+   "DefaultKept", "DefaultFill", "ProseKept.base", "ProseKept.stop", "ProseKept.ann", "NamePresent", "NamesOrder", "SummaryKept",
+   "TypKept", "NeverRaises"],
+  when={"k": "numpydoc", "wrap": True, "ll": NARROW})
+F("ARGPARSE-wrapped-return-prose", ALLP,
+  "argparse with word wrap at a narrow DOCTRANS_LINE_LENGTH: the `:returns:` line of the generated docstring wraps and only its "
+  "first line is read back as the return prose",
+  ["RetKept.base", "RetKept.stop", "RetKept.ann", "ConfigTransparent"], when={"k": "argparse", "wrap": True, "ll": NARROW},
+  ret=[True, ANY, "own", ANY, ANY, ANY])
